@@ -14,7 +14,8 @@ META = {
             "mutex, harness side, no hook) are judged by the same property in TLC on logical order only and must be reproducible "
             "by the model (unlogged task steps inferred by TLC).",
     "note": "schedules are exhaustive in the model (bounded: 3 supervisors in a chain, 2-3 actors) but SAMPLED on the implementation "
-            "(tokio has no deterministic scheduler): 400 (quick) / 3000 (thorough) runs; liveness (stop eventually returns) is a "
+            "(tokio has no deterministic scheduler): 400 (quick) / 3000 (thorough) random runs plus 192 / 1200 runs of the nested-stop "
+            "scenario family (owner actor stops its subordinate from cleanup while the parent stops); liveness (stop eventually returns) is a "
             "secondary, non-listed property checked under weak fairness and reported in the evidence only; trusted: TLC, tokio's "
             "broadcast/mpsc contracts as modelled, the harness event logger",
     "design_ref": "DESIGN.md section 6, C47",
@@ -59,12 +60,13 @@ def run(tier, replay):
         fr = lib.tlc("KActorsMC", cfg="KActorsMCfree", pid=PID, workers=4, timeout=1800)
         if fr["error"]:
             lib.tool_error(f"KActorsMCfree did not run (log {fr['log']})")
-        mcinfo["free_environment_safety"] = ("counterexample (registration on a supervisor whose task already exited) - replayed as "
-                                             "scenario 'zombie'") if fr["violated"] else "holds"
+        mcinfo["free_environment_safety"] = ("counterexample, model only (an actor registered on a subordinate whose task already "
+                                             "exited is not reached by a later stop() of that subordinate's PARENT handle; the direct "
+                                             "case, scenario 'zombie', is repaired by f3903f9)") if fr["violated"] else "holds"
         for cfg, key in (("KActorsMClive", "liveness_behaved_environment"), ("KActorsMClivefree", "liveness_free_environment")):
             lv = lib.tlc("KActorsMC", cfg=cfg, pid=PID, workers=8, timeout=3000, xmx="8g")
             import re
-            tviol = re.search(r"Temporal propert(y \S+ was|ies were) violated", lv["out"]) is not None
+            tviol = re.search(r"Temporal propert(y|ies)\b[^\n]*violated", lv["out"]) is not None
             if lv["error"] and not tviol:
                 lib.tool_error(f"{cfg} did not run (log {lv['log']})")
             viol = lv["violated"] or tviol
@@ -74,8 +76,11 @@ def run(tier, replay):
     if replay:
         lib.kverif("unix", ["c47", "--out", obs, "--replay", replay], timeout=3000)
     else:
-        nruns = 400 if quick else 3000
-        lib.kverif("unix", ["c47", "--out", obs, "--scenarios", "zombie,late", "--runs", nruns, "--seed", lib.seed()], timeout=3000)
+        nruns, orounds = (400, 48) if quick else (3000, 300)
+        # scenario family `owner` (4 runs per round: root / nested parent x current-thread / multi-thread runtime): an actor
+        # stops the subordinate supervisor it owns from its cleanup while the parent's stop reaches that subordinate too
+        lib.kverif("unix", ["c47", "--out", obs, "--scenarios", "zombie,late", "--owner-rounds", orounds, "--runs", nruns,
+                            "--seed", lib.seed()], timeout=3000)
     tv = lib.trace_validate("KActorsTrace", obs, PID, timeout=2400)
     lines = lib.read_lines(obs)
     runs = split_runs(lines)
@@ -127,5 +132,7 @@ def run(tier, replay):
                      "'stopped' for an actor = cleanup finished and no further callback; for a supervisor = its run() returned "
                      "(only observable through its actors without a hook)",
                      "random runs never register under a subtree whose stop was already issued (that case is covered by the "
-                     "deterministic scenarios 'zombie' and 'late' derived from model counterexamples)"]
+                     "deterministic scenarios 'zombie' and 'late' derived from model counterexamples)",
+                     "scenario family 'owner' races handle.stop() on a subordinate (from its owner's cleanup) against the parent's stop / "
+                     "runtime termination on current-thread and multi-thread runtimes; which select! branch wins is tokio's choice"]
     R.finish()
